@@ -35,6 +35,10 @@ struct ux_socket
 
     char path[UX_NAME_MAX+1];
 
+    /* errno of a connection failure (e.g., ECONNRESET because the
+       peer closed with unread data), reported by all later calls */
+    int badness_reason;
+
     int64_t cnts[XCM_TP_NUM_MESSAGING_CNTS];
 };
 
@@ -364,12 +368,20 @@ static int ux_send(struct xcm_socket *__restrict s,
 
     TP_GOTO_ON_INVALID_MSG_SIZE(len, UX_MAX_MSG, err);
 
+    if (us->badness_reason != 0) {
+	errno = us->badness_reason;
+	goto err;
+    }
+
     int rc = send(us->fd, buf, len, MSG_NOSIGNAL|MSG_EOR);
 
     ut_assert(rc > 0 ? rc == len : true);
 
-    if (rc < 0)
+    if (rc < 0) {
+	if (errno != EAGAIN && errno != EPIPE)
+	    us->badness_reason = errno;
 	goto err;
+    }
 
     LOG_SEND_ACCEPTED(s, buf, len);
     XCM_TP_CNT_MSG_INC(us->cnts, from_app, len);
@@ -390,6 +402,11 @@ static int ux_receive(struct xcm_socket *__restrict s,
 
     LOG_RCV_REQ(s, buf, capacity);
 
+    if (us->badness_reason != 0) {
+	errno = us->badness_reason;
+	return -1;
+    }
+
     int rc = recv(us->fd, buf, capacity, MSG_TRUNC);
 
     if (rc > 0) {
@@ -403,6 +420,8 @@ static int ux_receive(struct xcm_socket *__restrict s,
 	LOG_RCV_EOF(s);
 	return 0;
     } else {
+	if (errno != EAGAIN)
+	    us->badness_reason = errno;
 	LOG_RCV_FAILED(s, errno);
 	return -1;
     }
